@@ -104,8 +104,7 @@ def check_case(acc, case, frontend) -> list[dict]:
             if code == "dangling-backref:footnote" and name == "transformed" and _in_unresolved_link(phases[0][1], detail, warn):
                 # recorded finding: docutils replaced an unresolvable '[.. [^a] ..](name)' link by a problematic node
                 code = "dangling-backref:footnote-reference-inside-unresolved-link"
-            if code in ("duplicate-id", "id-registry-points-elsewhere") and re.match(r"'(system-message|problematic)-\d+'", detail) and re.search(r"\{contents\}|\.\. contents::", text) \
-                    and transformed:
+            if code in ("duplicate-id", "id-registry-points-elsewhere") and _copied_into_contents(doc, detail):
                 # recorded finding: docutils' Contents transform copies a title together with the warning MyST put inside it
                 code = "duplicate-id:title-message-copied-into-contents"
             if code in ("duplicate-id", "id-registry-points-elsewhere") and detail.startswith("'equation-") and name.startswith("sphinx"):
@@ -124,6 +123,22 @@ def check_case(acc, case, frontend) -> list[dict]:
             seen.add(v["signature"])
             out.append(v)
     return out
+
+
+def _copied_into_contents(doc, detail) -> bool:
+    """Is one of the nodes that carry the id named in `detail` inside the table of contents (docutils' Contents transform
+    deep-copies each title into its entry, ids included)?"""
+    from docutils import nodes
+
+    m = re.match(r"'([^']+)'", detail)
+    if not m:
+        return False
+    for topic in doc.findall(nodes.topic):
+        if "contents" in topic.get("classes", []):
+            for n in topic.findall(nodes.Element):
+                if m.group(1) in n.get("ids", []):
+                    return True
+    return False
 
 
 def _in_unresolved_link(parsed_doc, detail, warn) -> bool:
